@@ -89,9 +89,11 @@ CLAIMED = {
         text="Lean 4 theorems: percent-decoding inverts an independent encoder for every byte string and is applied once "
              "(C03_unescape_enc, C03_once); for every list of (name, value) byte strings the parsed query string / "
              "urlencoded body is exactly that list in order (C03_query_roundtrip: nothing dropped, merged, re-attributed); a "
-             "header is stored byte-exact and found under every spelling of its name (C03_header_store). Tied to /repo by "
-             "`decode` through ProcessURI, the urlencoded body processor, the Cookie header and AddRequestHeader.",
-        note=_TB + "Partial: multipart/JSON/XML parsing (mime/multipart, encoding/xml, gjson) is outside the model; "
+             "header is stored byte-exact and found under every spelling of its name (C03_header_store); JSON bodies: within the "
+             "depth limit no error is raised and every scalar of every document is exposed under json.<path> with its text "
+             "(C03_json_every_scalar_exposed, by induction over the document). Tied to /repo by "
+             "`decode` through ProcessURI, the urlencoded and JSON body processors, the Cookie header and AddRequestHeader.",
+        note=_TB + "Partial: multipart/XML parsing (mime/multipart, encoding/xml) and gjson's reading of JSON text are outside the model; "
              "url.ParseRequestURI is a parameter.", ref="6/C03", engine="decode"),
     "C18": dict(
         text="Lean 4 theorems over a model of the middleware's response interceptor, for every configuration, every decision "
